@@ -389,6 +389,7 @@ package wire
 //@   requires cache != nil && stmt != nil
 //@   ensures [stored] result == nil && mapdom(cache.statements, name) && fresh(cache.statements[name]) && cache.statements[name].fn == stmt.fn && cache.statements[name].parameters == stmt.parameters && cache.statements[name].columns == stmt.columns
 //@   ensures [whole-view] forall k :: k != name ==> ((mapdom(cache.statements, k) <==> old(mapdom(cache.statements, k))) && (mapdom(cache.statements, k) ==> cache.statements[k] == old(cache.statements[k])))
+//@   ensures [own-map] cache.statements == old(cache.statements) || fresh(cache.statements)
 //@   modifies cache.statements, mapof(cache.statements)
 
 //@ func (*DefaultStatementCache).Get
@@ -404,6 +405,7 @@ package wire
 //@   requires cache != nil
 //@   ensures [stored] result == nil && mapdom(cache.portals, name) && fresh(cache.portals[name]) && cache.portals[name].statement == stmt && cache.portals[name].parameters == parameters && cache.portals[name].formats == formats
 //@   ensures [whole-view] forall k :: k != name ==> ((mapdom(cache.portals, k) <==> old(mapdom(cache.portals, k))) && (mapdom(cache.portals, k) ==> cache.portals[k] == old(cache.portals[k])))
+//@   ensures [own-map] cache.portals == old(cache.portals) || fresh(cache.portals)
 //@   modifies cache.portals, mapof(cache.portals)
 
 //@ func (*DefaultPortalCache).Get
@@ -614,7 +616,7 @@ package wire
 //@   ensures [not-exceeded-passthrough] !isExceeded(exceeded) ==> (err == exceeded && OutSame())
 //@   ensures [skip-report-continue] {C10} (isExceeded(exceeded) && err == nil) ==> (reader.Buffer.#pos == old(reader.Buffer.#pos) + max(excSize(exceeded), 0) && #nE == old(#nE) + 1 && #E_C == specCode(exceeded) && #E_S == (specSeverity(exceeded) == "" ? "ERROR" : specSeverity(exceeded)))
 //@   ensures [ok] ReaderOK(reader)
-//@   ensures [error-once] #nE <= old(#nE) + 1 && #nE >= old(#nE) && #nZ <= old(#nZ) + 1
+//@   ensures [error-once] #nE <= old(#nE) + 1 && #nE >= old(#nE) && #nZ <= old(#nZ) + 1 && #nZ >= old(#nZ)
 //@   ensures [err-kind] err != nil ==> (err == exceeded || !isExceeded(err))
 //@   ensures [alloc-bound] {C04 C10} #maxalloc <= max(old(#maxalloc), max(reader.MaxMessageSize, 4096))
 //@   ensures [no-overwrite] {C18} (wa <= old(#alloc) && Exposed(old(reader.Msg), wa, wi)) ==> (mem(wa, wi) == old(mem(wa, wi)) && Exposed(reader.Msg, wa, wi))
@@ -624,6 +626,7 @@ package wire
 //@ func (*Session).handleSimpleQuery
 //@   props C05 C02 C04
 //@   requires HOK(srv, reader, writer, ctx)
+//@   requires [caches-wellformed] PortalsWF(srv)
 //@   ensures [one-Z-last] {C05} result == nil ==> (#nZ == old(#nZ) + 1 && #last == 'Z' && (old(#cyc) == 0 ==> #cyc == 0))
 //@   ensures [error-once] {C05} #nE <= old(#nE) + 1 && #nE >= old(#nE)
 //@   ensures [no-Z-on-failure] {C05} result != nil ==> #nZ == old(#nZ)
@@ -633,6 +636,10 @@ package wire
 //@   callsite callback:wire.ParseFn [query-exact] {C03 C05} $query == query && $ctx == ctx
 //@   callsite callback:wire.PreparedStatementFn [stmt-args] {C05} $ctx == ctx && $self == statements[index].fn && len($parameters) == 0 && cast($writer, "*wire.dataWriter").client == writer && cast($writer, "*wire.dataWriter").columns == statements[index].columns
 //@   ensures [pos-monotone] reader.Buffer.#pos >= old(reader.Buffer.#pos)
+//@   ensures [caches-wellformed] PortalsWF(srv)
+//@   ensures [ok] HOK(srv, reader, writer, ctx)
+//@   ensures [own-maps] OwnMaps(srv)
+//@   ensures [nZ-monotone] #nZ >= old(#nZ)
 //@   modifies HandlerEffects(srv, reader, writer, ctx)
 //@   loop 0
 //@     invariant [ok] HOK(srv, reader, writer, ctx)
@@ -646,6 +653,7 @@ package wire
 //@ func (*Session).handleParse
 //@   props C06 C07 C02 C04
 //@   requires HOK(srv, reader, writer, ctx)
+//@   requires [caches-wellformed] PortalsWF(srv)
 //@   ensures [P-reply] {C06} (result == nil && #nE == old(#nE)) ==> (#nOut == old(#nOut) + 1 && #last == '1')
 //@   ensures [P-error-once] {C06} #nE <= old(#nE) + 1 && #nE >= old(#nE)
 //@   ensures [no-Z-unless-Sync] {C06} #nZ == old(#nZ)
@@ -654,6 +662,10 @@ package wire
 //@   callsite callback:wire.ParseFn [query-exact] {C03 C06} $query == query && $ctx == ctx
 //@   atreturn [name-is-first-string] {C07} #nParse > old(#nParse) ==> name == cstr(arr(old(reader.Msg)), off(old(reader.Msg)))
 //@   ensures [pos-monotone] reader.Buffer.#pos >= old(reader.Buffer.#pos)
+//@   ensures [caches-wellformed] PortalsWF(srv)
+//@   ensures [ok] HOK(srv, reader, writer, ctx)
+//@   ensures [own-maps] OwnMaps(srv)
+//@   ensures [nZ-monotone] #nZ >= old(#nZ)
 //@   modifies HandlerEffects(srv, reader, writer, ctx)
 //@   loop 0
 //@     invariant [range] 0 <= i && i <= parameters
@@ -662,7 +674,7 @@ package wire
 //@ func (*Session).handleDescribe
 //@   props C06 C07 C08 C02 C04
 //@   requires HOK(srv, reader, writer, ctx)
-//@   requires [caches-wellformed] forall k :: mapdom(DPC(srv.Portals).portals, k) ==> (DPC(srv.Portals).portals[k] != nil && DPC(srv.Portals).portals[k].statement != nil)
+//@   requires [caches-wellformed] PortalsWF(srv)
 //@   ensures [D-error-once] {C06} #nE <= old(#nE) + 1 && #nE >= old(#nE)
 //@   ensures [no-Z-unless-Sync] {C06} #nZ == old(#nZ)
 //@   ensures [err-kind] result != nil ==> !isExceeded(result)
@@ -675,11 +687,16 @@ package wire
 //@   callsite (*wire.Session).writeColumnDescription [statement-columns] {C08 C07} $columns == statement.columns && len($formats) == 0
 //@   callsite (*wire.Session).writeColumnDescription [portal-formats] {C08 C07} $columns == portal.statement.columns && $formats == portal.formats
 //@   ensures [pos-monotone] reader.Buffer.#pos >= old(reader.Buffer.#pos)
+//@   ensures [caches-wellformed] PortalsWF(srv)
+//@   ensures [ok] HOK(srv, reader, writer, ctx)
+//@   ensures [own-maps] OwnMaps(srv)
+//@   ensures [nZ-monotone] #nZ >= old(#nZ)
 //@   modifies HandlerEffects(srv, reader, writer, ctx)
 
 //@ func (*Session).handleBind
 //@   props C06 C07 C08 C18 C02 C04
 //@   requires HOK(srv, reader, writer, ctx)
+//@   requires [caches-wellformed] PortalsWF(srv)
 //@   ensures [B-reply] {C06} result == nil ==> (#nOut == old(#nOut) + 1 && #last == '2' && #nE == old(#nE))
 //@   ensures [B-no-error-reply] {C06} #nE == old(#nE)
 //@   ensures [err-kind] result != nil ==> !isExceeded(result)
@@ -688,22 +705,31 @@ package wire
 //@   callsite iface:wire.StatementCache.Get [by-name] {C07} $name == statement
 //@   callsite iface:wire.PortalCache.Bind [passes] {C07 C08} $name == name && $statement == stmt && $parameters == parameters && $columns == formats && $ctx == ctx
 //@   ensures [pos-monotone] reader.Buffer.#pos >= old(reader.Buffer.#pos)
+//@   ensures [caches-wellformed] PortalsWF(srv)
+//@   ensures [ok] HOK(srv, reader, writer, ctx)
+//@   ensures [own-maps] OwnMaps(srv)
+//@   ensures [nZ-monotone] #nZ >= old(#nZ)
 //@   modifies HandlerEffects(srv, reader, writer, ctx)
 
 //@ func (*Session).handleExecute
 //@   props C06 C07 C05 C02 C04
 //@   requires HOK(srv, reader, writer, ctx)
+//@   requires [caches-wellformed] PortalsWF(srv)
 //@   ensures [E-error-once] {C06} #nE <= old(#nE) + 1 && #nE >= old(#nE)
 //@   ensures [no-Z-unless-Sync] {C06} #nZ == old(#nZ)
 //@   ensures [err-kind] result != nil ==> !isExceeded(result)
 //@   callsite iface:wire.PortalCache.Execute [by-name] {C07} $name == name && $reader == reader && $writer == writer && $ctx == ctx
 //@   ensures [pos-monotone] reader.Buffer.#pos >= old(reader.Buffer.#pos)
+//@   ensures [caches-wellformed] PortalsWF(srv)
+//@   ensures [ok] HOK(srv, reader, writer, ctx)
+//@   ensures [own-maps] OwnMaps(srv)
+//@   ensures [nZ-monotone] #nZ >= old(#nZ)
 //@   modifies HandlerEffects(srv, reader, writer, ctx)
 
 //@ func (*Session).handleCommand
 //@   props C06 C05 C07 C13 C19 C03 C04
 //@   requires HOK(srv, reader, writer, ctx) && conn != nil
-//@   requires [caches-wellformed] forall k :: mapdom(DPC(srv.Portals).portals, k) ==> (DPC(srv.Portals).portals[k] != nil && DPC(srv.Portals).portals[k].statement != nil)
+//@   requires [caches-wellformed] PortalsWF(srv)
 //@   ensures [sync-one-Z] {C06} (t == 'S' && result == nil) ==> (#nZ == old(#nZ) + 1 && #nOut == old(#nOut) + 1 && #nE == old(#nE))
 //@   ensures [no-Z-unless-Sync] {C06} (t != 'S' && t != 'Q') ==> #nZ == old(#nZ)
 //@   ensures [flush-silent] {C06} t == 'H' ==> (result == nil && OutSame() && #nParse == old(#nParse) && #nExec == old(#nExec))
@@ -724,15 +750,37 @@ package wire
 //@   callsite (*wire.Session).handleBind [derived-ctx] {C19} CtxCarries($ctx, ctx0) && uf("ctx.parent", val($ctx)) == val(ctx0)
 //@   callsite (*wire.Session).handleConnTerminate [derived-ctx] {C19} CtxCarries($ctx, ctx0) && uf("ctx.parent", val($ctx)) == val(ctx0)
 //@   ensures [pos-monotone] reader.Buffer.#pos >= old(reader.Buffer.#pos)
+//@   ensures [caches-wellformed] PortalsWF(srv)
+//@   ensures [ok] HOK(srv, reader, writer, ctx)
+//@   ensures [own-maps] OwnMaps(srv)
+//@   ensures [nZ-monotone] #nZ >= old(#nZ)
 //@   modifies ConnEffects(srv, reader, writer, ctx)
 
 //@ func (*Session).consumeSingleCommand
 //@   props C06 C05 C10 C16 C19 C03 C18 C04
 //@   requires HOK(srv, reader, writer, ctx) && conn != nil && srv.Server.wg.#wgcnt >= 0
-//@   requires [caches-wellformed] forall k :: mapdom(DPC(srv.Portals).portals, k) ==> (DPC(srv.Portals).portals[k] != nil && DPC(srv.Portals).portals[k].statement != nil)
+//@   requires [caches-wellformed] PortalsWF(srv)
 //@   atreturn [terminate-stops] {C19} (t == 'X' && !old(srv.Server.closing.#aval)) ==> result != nil
 //@   ensures [no-progress-stops] {C04} reader.Buffer.#pos < old(reader.Buffer.#pos) + 5 ==> result != nil
 //@   ensures [admission] {C16} old(srv.Server.closing.#aval) ==> (#nParse == old(#nParse) && #nExec == old(#nExec) && #nTerminate == old(#nTerminate))
 //@   ensures [wg-balanced] {C16} srv.Server.wg.#wgcnt == old(srv.Server.wg.#wgcnt)
 //@   ensures [error-once] #nE <= old(#nE) + 1
+//@   ensures [caches-wellformed] PortalsWF(srv)
+//@   ensures [ok] HOK(srv, reader, writer, ctx)
+//@   ensures [own-maps] OwnMaps(srv)
+//@   ensures [nZ-monotone] #nZ >= old(#nZ)
 //@   modifies ConnEffects(srv, reader, writer, ctx), srv.Server.wg.#wgcnt
+
+//@ func (*Session).consumeCommands
+//@   props C05 C06 C12 C19 C03 C18 C04
+//@   requires HOK(srv, reader, writer, ctx) && conn != nil && srv.Server.wg.#wgcnt >= 0
+//@   requires [caches-wellformed] PortalsWF(srv)
+//@   ensures [never-nil] result != nil
+//@   callsite (*wire.Session).consumeSingleCommand [ready-first] {C12} #nZ >= old(#nZ) + 1 && $ctx == ctx && $reader == reader && $writer == writer && $conn == conn
+//@   modifies ConnEffects(srv, reader, writer, ctx), srv.Server.wg.#wgcnt
+//@   loop 0
+//@     invariant [ok] HOK(srv, reader, writer, ctx) && srv.Server.wg.#wgcnt >= 0
+//@     invariant [caches-wellformed] PortalsWF(srv)
+//@     invariant [ready-first] #nZ >= old(#nZ) + 1
+//@     invariant [own-maps] OwnMaps(srv)
+//@     decreases streamlen(reader.Buffer) - reader.Buffer.#pos
